@@ -305,4 +305,11 @@ def r4_completeness_and_tables(ctx):
     ctx.floor(n, 2)
 
 
-RULES = [r1_fresh_directory, r2_no_clobber_writers, r3_attribution, r4_completeness_and_tables]
+def r5_one_suffix_per_run(ctx):
+    """"Exactly one reported file per bucket, format and run": in a parallel observation the file suffix is a bijection of the run grid (arange(size).reshape(shape) on the grid's own dims), wired unchanged down to build_filenames (shared with C07.R3)."""
+    from props.C07 import r3_one_suffix_per_run
+
+    r3_one_suffix_per_run(ctx)
+
+
+RULES = [r5_one_suffix_per_run, r1_fresh_directory, r2_no_clobber_writers, r3_attribution, r4_completeness_and_tables]
